@@ -5,6 +5,7 @@ import (
 	"fmt"
 	"testing"
 
+	"github.com/emmansun/gmsm/cfca"
 	"github.com/emmansun/gmsm/pkcs7"
 	"verif/harness/gen"
 	"verif/harness/h"
@@ -101,13 +102,27 @@ func checkEnvAlter(c envAlterCase, r *h.Rec) error {
 	ci := cipherByName(c.Cipher)
 	var out error
 	withRand(1, func() {
+		var got []byte
+		var err error
+		if c.Kind == "enveloped" && (c.API == "EncryptCFCA" || c.API == "EnvelopeMessageCFCA") {
+			// through the cfca wrappers (Parse + Decrypt[CFCA] in one call)
+			who := id(c.Recip)
+			if c.API == "EncryptCFCA" {
+				got, err = cfca.OpenEnvelopedMessageLegacy(alt, who.cert, who.key)
+			} else {
+				got, err = cfca.OpenEnvelopedMessage(alt, who.cert, who.key)
+			}
+			r.NT()
+			r.Label("entry:cfca-wrapper")
+			judgeEnvAlter(c, ci, alt, got, err, r, &out)
+			return
+		}
 		p7, err := pkcs7.Parse(alt)
 		if err != nil {
 			r.Label("outcome:parse-error")
 			return
 		}
 		r.NT()
-		var got []byte
 		switch c.Kind {
 		case "psk":
 			got, err = p7.DecryptUsingPSK(c.PSK)
@@ -154,29 +169,36 @@ func checkEnvAlter(c envAlterCase, r *h.Rec) error {
 				return
 			}
 		}
-		switch {
-		case err != nil:
-			r.Label("outcome:error")
-		case bytes.Equal(got, c.Content):
-			r.Label("outcome:original-content")
-		case !ci.aead:
-			r.Label("outcome:other-bytes(unauthenticated-content-cipher)")
-		default:
-			orig, now := algOIDOf(c.Orig, c.Kind), algOIDOf(alt, c.Kind)
-			switch {
-			case now == nil:
-				r.Label("outcome:other-bytes(aead,strict-reader-cannot-read-altered-message)")
-			case !bytes.Equal(orig, now):
-				// the altered message names another content cipher (e.g. sm4-gcm -> sm4-ecb,
-				// one OID octet): the algorithm identifier is not authenticated in PKCS#7
-				r.Label("outcome:other-bytes(aead,algorithm-identifier-altered)")
-			default:
-				out = fmt.Errorf("altered message (%s, offset %d) with the AEAD content cipher %s decrypts to OTHER BYTES %x (content %x) without an error\n original=%x\n altered =%x",
-					c.Msg, c.Pos, c.Cipher, got, []byte(c.Content), []byte(c.Orig), alt)
-			}
-		}
+		judgeEnvAlter(c, ci, alt, got, err, r, &out)
 	})
 	return out
+}
+
+// judgeEnvAlter applies the supplementary AEAD rule to one decryption result.
+func judgeEnvAlter(c envAlterCase, ci cipherInfo, alt, got []byte, err error, r *h.Rec, res *error) {
+	var out error
+	switch {
+	case err != nil:
+		r.Label("outcome:error")
+	case bytes.Equal(got, c.Content):
+		r.Label("outcome:original-content")
+	case !ci.aead:
+		r.Label("outcome:other-bytes(unauthenticated-content-cipher)")
+	default:
+		orig, now := algOIDOf(c.Orig, c.Kind), algOIDOf(alt, c.Kind)
+		switch {
+		case now == nil:
+			r.Label("outcome:other-bytes(aead,strict-reader-cannot-read-altered-message)")
+		case !bytes.Equal(orig, now):
+			// the altered message names another content cipher (e.g. sm4-gcm -> sm4-ecb,
+			// one OID octet): the algorithm identifier is not authenticated in PKCS#7
+			r.Label("outcome:other-bytes(aead,algorithm-identifier-altered)")
+		default:
+			out = fmt.Errorf("altered message (%s, offset %d) with the AEAD content cipher %s decrypts to OTHER BYTES %x (content %x) without an error\n original=%x\n altered =%x",
+				c.Msg, c.Pos, c.Cipher, got, []byte(c.Content), []byte(c.Orig), alt)
+		}
+	}
+	*res = out
 }
 
 func TestC16_EnvAlter(t *testing.T) {
